@@ -94,6 +94,7 @@ def check(run):
     words += [[1, 4], [4, 1], [4], [2, 5, 1], [5], [1, 5], [5, 1], [1, 5, 2], [5, 5], [2, 5],
               [1, 5, 3, 3], [1, 6, 2], [1, 6], [6, 2], [6]]   # multi-byte / non-BMP letters (two of them, in order)
     cases, metas = [], []
+    found = {}         # (segments, word, k, prefix) -> the words a FuzzyTerm search finds
     qwords = words + [[1, 1, 2, 2, 1][:maxlen + 1], [2] * (maxlen + 1)]
     for nseg, drop_first in ((1, False), (3, False), (2, True)):
         freqs = dict((tuple(w), rng.choice([1, 1, 2, 3])) for w in words)
@@ -135,6 +136,9 @@ def check(run):
                             {"kind": "ids", "path": "FuzzyTerm(%dseg)" % nseg,
                              "ids": sorted(int(d) for d in s.docs_for_query(
                                  query.FuzzyTerm("body", text, maxdist=k, prefixlength=p)))}))
+                        if obs and obs[-1].get("path", "").startswith("FuzzyTerm") and not drop_first:
+                            wordof = dict((i, w) for w, i in docof.items())
+                            found[(nseg, tuple(qw), k, p)] = sorted(wordof[i] for i in obs[-1]["ids"])
                         if k >= 1:
                             for limit in (2, 50):
                                 guard("suggest", lambda limit=limit: obs.append(
@@ -181,6 +185,13 @@ def check(run):
                 qs.append({"q": {"op": "null"}, "obs": obs})
         cases.append({"idx": idx, "qs": qs})
         metas.append({"plan": ["lexicon of %d words" % len(words), nseg], "nseg": nseg, "deleted": 0})
+    # the same lexicon in one segment and in three: a search finds the same words (C06: the layout is invisible)
+    both = [(qw, k, p) for (ns, qw, k, p) in found if ns == 1 and (3, qw, k, p) in found]
+    differ = [(qw, k, p) for (qw, k, p) in both if found[(1, qw, k, p)] != found[(3, qw, k, p)]]
+    cases.append({"idx": {"docs": []}, "qs": [{"q": {"op": "null"}, "obs": [
+        {"kind": "flag", "path": "FuzzyTerm finds the same words in a one-segment and a three-segment index (%d searches compared%s)"
+         % (len(both), "; differs for %r" % (differ[:3],) if differ else ""), "value": not differ and len(both) > 0}]}]})
+    metas.append({"plan": ["layout comparison"], "nseg": 0, "deleted": 0})
     rejects = qobs.judge(run, cases, name="QueryCheck-fuzzy", chunk=1)
     # classification of the recorded findings
     RANKING = {"not_the_word_itself", "closer_then_more_frequent_first", "limit_keeps_the_best"}
